@@ -171,6 +171,7 @@ def end_to_end(chk, tier):
             ('=CONCATENATE(A%d,B%d,C%d)' % (row, row, row), lambda: t + u + str(i1)),
             ('=CONCATENATE(B%d;"-";A%d)' % (row, row), lambda: u + '-' + t),
             ('=CONCATENATE(A%d,0,"|")' % row, lambda: t + '0|'),
+            ('=CONCATENATE(A%d,1234.5678,"|",0.000012345)' % row, lambda: t + '1234.5678|1.2345e-05'),
             ('=CONCATENATE(C%d,"|",A%d)' % (row, row), lambda: str(i1) + '|' + t),
             ('=SEARCH(B%d,A%d)' % (row, row), lambda: inst._search(u, t, None)),
             ('=SEARCH(B%d,A%d,%d)' % (row, row, max(1, a)), lambda: inst._search(u, t, max(1, a))),
